@@ -126,7 +126,13 @@ func mcSection3(c *vlib.Case) {
 		c.Violationf("model3d.MarchingCubesConj/equals-search-of-transformed-solid-mapped-back", w,
 			"MarchingCubesConj differs from MarchingCubesSearch(TransformSolid(...)) mapped through the inverse: %s", why)
 	}
-	if a, b := vlib.SignedVolume(conjTris), vlib.SignedVolume(refTris); a*b <= 0 {
+	if js.has("squeeze") || js.has("pinch") || js.has("smart") {
+		// Mapping the vertices of a coarse mesh through a map that is only piecewise linear along an
+		// axis re-straightens the faces: a thin sliver can change the sign of its volume although the
+		// map itself preserves orientation (found as a false alarm of this clause at seed 2: an
+		// 8-face mesh across a squeeze breakpoint). The clause is decided for affine maps only.
+		c.Undecided("mc3d.orientation-under-non-affine-map")
+	} else if a, b := vlib.SignedVolume(conjTris), vlib.SignedVolume(refTris); a*b <= 0 {
 		c.Violationf("model3d.MarchingCubesConj/orientation", w, "signed volume %.6g of the result vs %.6g in transformed space: orientation flipped by an orientation-preserving transform", a, b)
 	}
 	// every vertex lies on the surface of the original solid
